@@ -166,7 +166,7 @@ func vfC02Gen(rt *rapid.T) vfC02Case {
 			return op
 		}
 	})
-	c.Ops = rapid.SliceOfN(opGen, 1, 50).Draw(rt, "ops")
+	c.Ops = vfListOf(rt, "ops", opGen, 1, 50)
 	c.Ops = append(c.Ops, vfSOp{Op: "search", Qs: [][]float32{genQuery(rt), genQuery(rt)}, K: rapid.IntRange(1, 6).Draw(rt, "k_last"), Agg: rapid.SampledFrom([]string{"sum", "max", "mean"}).Draw(rt, "agg_last"), NP: c.NList})
 	return c
 }
@@ -367,6 +367,7 @@ func vfAggFold32(kind string, scores []float32) float32 {
 }
 
 func vfC02Run(c vfC02Case, ctx *vfCtx) *vfViolation {
+	ctx.HistoryLen("history", len(c.Ops))
 	u, err := vfBuildIndex(&c)
 	if err != nil {
 		return vfFail("building a %s index (dim %d, M %d, nbits %d, nlist %d): %v", c.Kind, c.Dim, c.M, c.NBits, c.NList, err)
